@@ -541,3 +541,59 @@ func boundsRuleFor(c *core.Ctx, r *core.Report, selected func(*ssa.Function) boo
 	}
 	r.Floor("index/slice expressions in the code examined", n, floor)
 }
+
+// foldConst evaluates an integer expression built from constants only (arithmetic, conversions, and the unit
+// accessors of time.Duration): the compiler folds `2 * time.Second`, but not `d / time.Millisecond` for a local
+// d that is only ever a constant.
+func foldConst(v ssa.Value) (int64, bool) {
+	switch x := stripAllocs(v).(type) {
+	case *ssa.Const:
+		return constInt(x)
+	case *ssa.Convert:
+		if isIntType(x.Type()) && isIntType(x.X.Type()) {
+			return foldConst(x.X)
+		}
+	case *ssa.ChangeType:
+		return foldConst(x.X)
+	case *ssa.BinOp:
+		a, okA := foldConst(x.X)
+		b, okB := foldConst(x.Y)
+		if !okA || !okB {
+			return 0, false
+		}
+		switch x.Op {
+		case token.ADD:
+			return a + b, true
+		case token.SUB:
+			return a - b, true
+		case token.MUL:
+			return a * b, true
+		case token.QUO:
+			if b != 0 {
+				return a / b, true
+			}
+		case token.REM:
+			if b != 0 {
+				return a % b, true
+			}
+		}
+	case *ssa.Call:
+		t := an.Callee(x)
+		if t == nil || t.Signature.Recv() == nil || !an.IsNamed(t.Signature.Recv().Type(), "time", "Duration") || len(x.Call.Args) != 1 {
+			return 0, false
+		}
+		d, ok := foldConst(x.Call.Args[0])
+		if !ok {
+			return 0, false
+		}
+		switch t.Name() {
+		case "Nanoseconds":
+			return d, true
+		case "Microseconds":
+			return d / 1000, true
+		case "Milliseconds":
+			return d / 1000000, true
+		}
+	}
+	return 0, false
+}
